@@ -23,7 +23,7 @@ import os
 import re
 
 
-APPEND_CALL = r"\.\s*append_command(?:_in_db)?\s*\("
+APPEND_CALL = r"\.\s*(?:append_command(?:_in_db)?|end_command)\s*\("
 
 
 def paren_block(text, start):
@@ -148,6 +148,7 @@ def facts(src, strip_comments, fn_body, repo=None):
                 out["dispatchNames"] = names
             before = pnc[:mm.start()]
             ap = re.search(r"if\s+let\s+Some\s*\(\s*aof\s*\)\s*=\s*&\s*self\s*\.\s*aof_engine\s*\{\s*"
+                           r"(?:if\s+let\s+Err\s*\(\s*\w+\s*\)\s*=\s*aof\s*\.\s*begin_command\s*\(\s*\)\s*\{[^;]*;\s*\}\s*)?"
                            r"if\s+self\s*\.\s*is_write_command\s*\(\s*&\s*command_name\s*\)\s*(&&\s*!\s*logged_by_effect\s*)?\{\s*"
                            r"if\s+let\s+Err\s*\(\s*\w+\s*\)\s*=\s*aof\s*\.\s*"
                            r"(append_command\s*\(\s*parts\s*\)|append_command_in_db\s*\(\s*db\s*,\s*parts\s*\))", before)
@@ -160,6 +161,8 @@ def facts(src, strip_comments, fn_body, repo=None):
                 # `SELECT db` entry first whenever the previous entry ran in another database
                 aof_rs = strip_comments(src("storage/aof.rs"))
                 indb = fn_body(aof_rs, "append_command_in_db")
+                if indb is not None and re.search(r"self\s*\.\s*write_command_in_db\s*\(\s*db\s*,", indb):
+                    indb = fn_body(aof_rs, "write_command_in_db")      # (the entry may be held back first: begin_command / end_command)
                 tracked = bool(ap) and "append_command_in_db" in ap.group(2) and indb is not None and \
                     bool(re.search(r'from_string\s*\(\s*"SELECT"\s*\)', indb)) and bool(re.search(r"!=\s*Some\s*\(\s*db\s*\)|!=\s*db\b", indb))
                 out["selectTracked"] = tracked
@@ -210,6 +213,34 @@ def facts(src, strip_comments, fn_body, repo=None):
             tail = apc[mm2.end() + len(brace_block(apc, mm2.end()) or ""):] if mm2 else ""
             after_all = bool(re.search(r"\bwriter\s*\.\s*flush\s*\(\s*\)", tail))
             out["flushPerAppend"] = [(p, f or after_all) for p, f in arms]
+
+    # ---- expiry: the storage engine reports the keys it removes because their TTL elapsed (lazy path, get, WATCH, sweeper), the
+    #      server logs `DEL key` for each ahead of the entries of the command that was running (held back by begin_command /
+    #      end_command) and, for the sweeper, once per loop iteration
+    eng = strip_comments(src("storage/engine.rs"))
+    gs, sw, lek = fn_body(eng, "get_shard"), fn_body(eng, "expiration_cleanup_loop"), fn_body(server, "log_expired_keys")
+    run_loop = fn_body(server, "run")
+    if gs is None or sw is None or pnc is None or run_loop is None:
+        out["errors"].append("get_shard / expiration_cleanup_loop / run not found")
+        out["expiryLogged"] = None
+    else:
+        mm3 = re.search(r"\bmatch\s+command_name\s*\.\s*as_str\s*\(\s*\)\s*\{", pnc)
+        out["expiryLogged"] = bool(
+            re.search(r"\bnote_expired\s*\(", gs) and re.search(r"\bnote_expired\s*\(", sw) and lek is not None and
+            re.search(r"take_expired_keys\s*\(", lek) and re.search(r'from_string\s*\(\s*"DEL"\s*\)', lek) and re.search(r"\.\s*end_command\s*\(", lek) and
+            mm3 and re.search(r"\.\s*begin_command\s*\(", pnc[:mm3.start()]) and re.search(r"self\s*\.\s*log_expired_keys\s*\(", pnc[mm3.start():]) and
+            re.search(r"self\s*\.\s*log_expired_keys\s*\(", run_loop) and re.search(r"track_expired_keys\s*\(\s*true\s*\)", server))
+    # ---- XCLAIM logged by its effect
+    ibe2, ee2 = fn_body(server, "is_logged_by_effect"), fn_body(server, "effect_entry")
+    out["xclaimByEffect"] = bool(ibe2 and ee2 and '"XCLAIM"' in ibe2 and re.search(r'"XCLAIM"\s*=>', ee2))
+    # ---- a torn tail is cut off before the writer is opened
+    finit2, ftr = fn_body(aof_src, "init"), fn_body(aof_src, "truncate_torn_tail")
+    if finit2 is None:
+        out["tornTailTruncated"] = None
+    else:
+        m_tr = re.search(r"self\s*\.\s*truncate_torn_tail\s*\(", finit2)
+        m_op = re.search(r"OpenOptions\s*::\s*new", finit2)
+        out["tornTailTruncated"] = bool(m_tr and m_op and m_tr.start() < m_op.start() and ftr and re.search(r"\.\s*set_len\s*\(", ftr))
 
     # ---- SELECT tracking across restarts: `last_db` starts unknown (None) and becomes Some(0) only for an empty file
     fnew, finit = fn_body(aof_src, "new"), fn_body(aof_src, "init")
@@ -352,6 +383,19 @@ def generate(src, strip_comments, fn_body, header, repo=None):
         failed("lastDbUnknownOnInheritedFile", "Bool", err or "AofEngine::new/init not recognised")
     else:
         L.append("def lastDbUnknownOnInheritedFile : Bool := %s" % ("true" if f["lastDbUnknownOnInheritedFile"] else "false"))
+    L.append("")
+    L.append("/-- is the removal of a key whose time to live elapsed (lazy path, sweeper) appended as `DEL key`, ahead of the entries of the")
+    L.append("    command that was running? -/")
+    if f["expiryLogged"] is None:
+        failed("expiryLogged", "Bool", err or "expiry sites not recognised")
+    else:
+        L.append("def expiryLogged : Bool := %s" % ("true" if f["expiryLogged"] else "false"))
+    L.append("")
+    L.append("/-- is XCLAIM (whose outcome depends on idle times, i.e. on the clock) logged by its effect? -/")
+    L.append("def xclaimByEffect : Bool := %s" % ("true" if f.get("xclaimByEffect") else "false"))
+    L.append("")
+    L.append("/-- does `AofEngine::init` cut an unfinished last frame off the file before it opens the writer? -/")
+    L.append("def tornTailTruncated : Bool := %s" % ("true" if f.get("tornTailTruncated") else "false"))
     L.append("")
     L.append("/-- per fsync policy: does `AofEngine::append_command` hand the entry to the OS (`writer.flush()`) on every append?")
     L.append("    (then a reader of the file sees every acknowledged entry; fsync — durability against power loss — is another matter) -/")
